@@ -1542,6 +1542,14 @@ impl Zeroconf {
                     "run: send {} service removal to listeners",
                     expired_services.len()
                 );
+
+                // Forget what was known about the removed instances, so that they are
+                // handled like new ones when they come back.
+                for instance in expired_services.values().flatten() {
+                    self.resolved.remove(instance);
+                    self.pending_resolves.remove(instance);
+                }
+
                 self.notify_service_removal(expired_services);
             }
 
